@@ -25,6 +25,7 @@ import Driver.Saslprep
 import Driver.VerifyFmtPbkdf
 import Driver.VerifyFmtMisc
 import Driver.VerifyFmtStatic
+import Driver.VerifyFmtDesBcrypt
 /-
 Line protocol driver: `<suite> <op> <args…>` per input line, one result line out.
 Compiled (`lean_exe modeldrv`); nothing imported here touches Mathlib.
@@ -58,6 +59,7 @@ def dispatch (line : String) : String :=
   | "vfyP" :: rest => Driver.VerifyFmtPbkdf.handle rest
   | "vfyM" :: rest => Driver.VerifyFmtMisc.handle rest
   | "vfyS" :: rest => Driver.VerifyFmtStatic.handle rest
+  | "vfyD" :: rest => Driver.VerifyFmtDesBcrypt.handle rest
   | _ => Driver.bad
 
 partial def loop (h : IO.FS.Stream) (out : IO.FS.Stream) : IO Unit := do
